@@ -19,6 +19,7 @@ cUnderscore == 95  cDash == 45  cLS == 8232  cCR == 13
 
 A == Chr(ca)
 B == Chr(cb)
+Str(a, b) == <<a, b>>
 
 \* quantifiers as <<min, max, greedy>>; max = -1 is infinity
 QCore == { <<0, -1, TRUE>>, <<1, -1, TRUE>>, <<0, 1, TRUE>>,
@@ -110,6 +111,21 @@ F4 == With({ Cat(<<pre, Look(bd, k[1], k[2]), post>>) :
 F4Hay == [alpha |-> {ca, cb}, maxlen |-> IF Thorough THEN 5 ELSE 4]
 
 (***************************************************************************)
+(* F4b: look-arounds nested in look-arounds, both with capture groups,     *)
+(* where the outer one's captures must be discarded (it is negative, or    *)
+(* the match backtracks past it and completes through another alternative).*)
+(***************************************************************************)
+F4bBodies == { Cat(<<Grp(A), Look(Grp(B), FALSE, FALSE)>>), Cat(<<Grp(Dot), Look(Grp(Dot), FALSE, FALSE)>>),
+               Cat(<<Look(Grp(A), TRUE, FALSE), Grp(B)>>), Cat(<<Grp(A), Look(Cat(<<Grp(B), Look(Grp(Dot), FALSE, FALSE)>>), FALSE, FALSE)>>),
+               Cat(<<Grp(A), Look(B, FALSE, FALSE)>>), Grp(Cat(<<A, Look(Grp(B), FALSE, TRUE)>>)),
+               Cat(<<Look(Grp(Dot), TRUE, FALSE), Look(Grp(Dot), FALSE, FALSE), Grp(Dot)>>) }
+F4bPats == { Alt(<<Cat(<<pre, Look(bd, k[1], k[2]), post>>), alt2>>) :
+               pre \in {Empty, Dot}, bd \in F4bBodies, k \in F4Kinds, post \in {Chr(cx), A, Dot},
+               alt2 \in {Cat(<<A, B>>), Rep(Dot, 2, 2, TRUE), Dot} }
+F4b == With(F4bPats, NoFlags)
+F4bHay == [alpha |-> {ca, cb}, maxlen |-> 3]
+
+(***************************************************************************)
 (* F5: anchors, boundaries, dot, flags and modifier groups                 *)
 (***************************************************************************)
 F5Atoms == { Bol, Eol, Wb(FALSE), Wb(TRUE), Dot, A, Chr(cNL), Star(Dot), Opt(A),
@@ -191,8 +207,27 @@ F8Pats == {Alt(<<x, y>>) : x \in F8First, y \in F8Second} \cup {Alt(<<y, x>>) : 
 F8Flags == IF Thorough THEN { NoFlags, Flags(TRUE, FALSE, FALSE, TRUE, FALSE), Flags(FALSE, TRUE, FALSE, FALSE, FALSE) }
            ELSE { NoFlags, Flags(TRUE, TRUE, FALSE, TRUE, FALSE) }
 F8 == UNION {With(F8Pats, fl) : fl \in F8Flags}
-F8Hay == [alpha |-> {ca, cb, cc, cEacute} \cup (IF Thorough THEN {cGrin, cKelvin, cNL, cK} ELSE {}),
+\* (U+0000: unused slots of a small character set must not match anything)
+F8Hay == [alpha |-> {ca, cb, cc, cEacute, 0} \cup (IF Thorough THEN {cGrin, cKelvin, cNL, cK} ELSE {}),
           maxlen |-> 3]
+
+(***************************************************************************)
+(* F8m: literal alternatives that diverge inside a multi-byte character    *)
+(* (same lead byte, different continuation bytes), and string sets first   *)
+(* under v / iv: the literal prefix and the first-byte set must stay       *)
+(* sound.                                                                  *)
+(***************************************************************************)
+cEgrave == 232   cKip == 8365
+F8mLits == { Chr(cEacute), Chr(cEgrave), Lit2(ca, cEacute), Lit2(ca, cEgrave), Chr(cEuro), Chr(cKip), Lit2(cEacute, ca),
+             Lit2(cEgrave, ca), A, Lit2(cEuro, cEacute), Lit2(cKip, cEacute) }
+F8mPats == {Alt(<<x, y>>) : x \in F8mLits, y \in F8mLits} \cup {Cat(<<Ncg(Alt(<<x, y>>)), A>>) : x \in F8mLits, y \in F8mLits}
+             \cup {Alt(<<x, y, z>>) : x \in {Chr(cEacute), Chr(cEuro)}, y \in {Chr(cEgrave), Chr(cKip)}, z \in {A, Chr(cEacute)}}
+F8mSets == { VCls(FALSE, SQ(<<Str(ca, cb), <<cc>>>>)), VCls(FALSE, SQ(<<Str(cK, ca), Str(cs, cs)>>)),
+             Cat(<<VCls(FALSE, SQ(<<Str(ca, cb), Str(cx, cx)>>)), Opt(A)>>), Alt(<<VCls(FALSE, SQ(<<Str(ca, cb)>>)), Chr(cc)>>),
+             VCls(FALSE, SU(<<SQ(<<Str(ca, cb)>>), SC(cEacute)>>)) }
+F8m == With(F8mPats, NoFlags)
+         \cup UNION {With(F8mSets, fl) : fl \in {Flags(FALSE, FALSE, FALSE, FALSE, TRUE), Flags(TRUE, FALSE, FALSE, FALSE, TRUE)}}
+F8mHay == [alpha |-> {ca, cEacute, cEgrave, cEuro, cKip, 65, cb, ck}, maxlen |-> 2]
 
 (***************************************************************************)
 (* F9: counted loops around the optimizer's unroll threshold (5), on       *)
@@ -300,7 +335,6 @@ FC1 == {[ast |-> x.ast, fl |-> x.fl, sp |-> 0] : x \in FC1All}
                   x \in {y \in FC1All : Thorough \/ (y.ast.t = "cls" /\ Len(y.ast.items) = 1)}, sp \in {1, 2}}
 FCHay == [alpha |-> {cs, cS, cLongS, ck, cK, cKelvin, ca, c1, cUnderscore}, maxlen |-> 2]
 
-Str(a, b) == <<a, b>>
 FC2Leaves == { SC(cs), SC(cKelvin), SC(cLongS), SR(ca, 122), SE("w"), SE("W"), SE("d"), SP("Lu", FALSE), SP("Lu", TRUE),
                SP("Ll", TRUE), SQ(<<Str(cs, ck), <<cs>>>>), SQ(<< <<>> >>), SQ(<< <<ck>> >>), SC(c1), SQ(<<Str(cS, cK), Str(ck, ck)>>) }
 FC2Small == IF Thorough THEN { SC(cs), SC(cKelvin), SR(ca, 122), SE("W"), SP("Lu", TRUE), SQ(<<Str(cs, ck), <<cs>>>>), SP("Ll", FALSE), SQ(<< <<>> >>) }
@@ -393,6 +427,8 @@ FamilyCases(name) ==
     [] name = "F1b" -> AttachHays(F1b, F1bHay)
     [] name = "F13" -> AttachHays(F13, F13Hay)
     [] name = "F20" -> AttachHays(F20, F20Hay)
+    [] name = "F4b" -> AttachHays(F4b, F4bHay)
+    [] name = "F8m" -> AttachHays(F8m, F8mHay)
     [] name = "F11" -> AttachHays(F11, F11Hay)
     [] name = "F14" -> AttachHays(F14, F14Hay)
     [] name = "F14L" -> AttachHays(F14L, F14Hay)
